@@ -21,6 +21,8 @@ TRUSTED = ["directories with a history: harness/omen_history.py (second / third 
            "translator tie: harness/translate_omen_gen.py (the reading it gives its accepted Python subset: objects as "
            "records, the one shared Optimizer threaded, list value semantics under the aliasing rules it enforces) and "
            "the runtime coq/theories/OmenGenRt.v (Python ints, subscripts, dicts, exceptions, fuel)"]
+import loader2_tie as _loader2_tie
+TRUSTED = TRUSTED + [_loader2_tie.TRUSTED]
 ASSUMES = ["cache_ok c: every value in the memo table is the first completion for its key -- true of the empty table and "
            "preserved by every call (C10_fill_is_first, C10_exact return a sound table), so it holds for every history",
            "mc_starts = Some _ (the constructor does not raise): implied by first_below_max G, i.e. some IP and some length "
@@ -336,6 +338,9 @@ def run(ctx):
     # translator tie: the generated Optimizer / GuessStructure / MarkovCracker code = the model (names the broken lemma)
     import omen_gen_gen_tie
     corr = list(omen_gen_gen_tie.obligations())
+    # ... and the reader that builds the tables the generator walks (load_rules), with the scorer's reader
+    import loader2_tie
+    corr += loader2_tie.obligations("C10")
     for name, idx, log in common.run_case_shards("C10", shards):
         k = int(name[1:])
         if idx is None:
